@@ -19,8 +19,9 @@ PROP = dict(
     technique="TLA+ spec Samplers.tla (registry, per-worker caches, reload path, peer callback) model-checked by TLC; every generated transition replayed into the real sample.SamplerFactory and, at reload-atomic grain, into a real InMemCollector with its worker and monitor goroutines (spec->code transition tour)",
     design_ref="DESIGN.md §5 C12",
     level_text="TLC enumerates rules files (two destinations; a top-level sampler or a rules-based sampler with two downstream samplers of every dynsampler-backed type that differ in nothing, a tuning parameter, UseClusterSize, the field list or the rate, including 'awkward' tuning values (a windowed lookback that is not a multiple of the update period, one-key tables, sub-second intervals); a destination named like another one's downstream prefix; deterministic and undefined destinations), 2-3 workers, every order of lazy sampler creation, configuration change, ClearDynsamplers, per-worker reload signals and worker cache clears, and checks on the model: at quiescence all workers hold the same live instances built from the file in force (WorkersShare), instances are never shared between destinations (DestsIsolated) nor between non-identical definitions (DefsIsolated), caches only change on the worker's own reload (CacheStable), the registry only shrinks in ClearDynsamplers. Every generated transition is then executed on the real SamplerFactory over rules files loaded and validated by the real config package, and (with ConfigChange+reloadConfigs as one step) on a real InMemCollector whose parked worker goroutines take one step at a time; after every step the dynsampler pointer behind every cached sampler of every worker (read in package sample) must be the instance the model predicts.",
-    level_note="Exhaustive only within the bound (2 destinations, <=2 downstream samplers each, 2 workers in the replay / 3 in TLC, <=2 configuration changes; three concrete tuning variants per sampler type). Since /repo commit 871b085 (pending_fixes/C12-dynsampler-key-full-config.diff) the code conforms to the ideal key; the alternative observed-key (the old short key) is kept last only to name a regression to it (its deviation is no longer an open finding, so following it is a VIOLATION). All workers request their samplers from the same loaded Config object, as in production, so a sampler that mutates the shared config struct is seen by the next worker. The sample-level replay emulates the collector's three-line reload plumbing (real in the collect-level replay, where the monitor goroutine cannot be held between ClearDynsamplers and the worker signals). Rules files are validated once per scenario; the replay's Config object skips re-validation on reload. dynsampler-go's internal rate state is not compared, only instance identity.",
-    assumptions=["bounded: 2 destinations, <=2 downstream samplers per rules-based sampler, 2-3 workers, <=2 configuration changes",
+    level_note="Walk stages exhaustive only within the bound; the concurrent stage (real goroutines released by a barrier into GetSamplerImplementationForKey/GetDownstreamSampler on a fresh factory and after ClearDynsamplers, instance identity compared when all have returned) samples schedules. Bound (2 destinations, <=2 downstream samplers each, 2 workers in the replay / 3 in TLC, <=2 configuration changes; three concrete tuning variants per sampler type). Since /repo commit 871b085 (pending_fixes/C12-dynsampler-key-full-config.diff) the code conforms to the ideal key; the alternative observed-key (the old short key) is kept last only to name a regression to it (its deviation is no longer an open finding, so following it is a VIOLATION). All workers request their samplers from the same loaded Config object, as in production, so a sampler that mutates the shared config struct is seen by the next worker. The sample-level replay emulates the collector's three-line reload plumbing (real in the collect-level replay, where the monitor goroutine cannot be held between ClearDynsamplers and the worker signals). Rules files are validated once per scenario; the replay's Config object skips re-validation on reload. dynsampler-go's internal rate state is not compared, only instance identity.",
+    assumptions=["concurrent stage: 2-8 goroutines per wave, randomised (seeded) choice of rules file/caller count/destinations; interleavings inside createSampler are sampled, not enumerated (gate in metrics.Register makes all callers overlap whenever the code lets them)",
+                 "bounded: 2 destinations, <=2 downstream samplers per rules-based sampler, 2-3 workers, <=2 configuration changes",
                  "field-list order is not part of a definition (newTraceKey sorts it; the repo's own tests pin order-insensitive sharing)",
                  "collect-level replay: workers are scheduled one step at a time through their pause channel; a pending reload signal is held back while a worker decides a trace"],
     stages=[
@@ -29,6 +30,12 @@ PROP = dict(
         dict(kind="walk", name="Samplers-c12", module="Samplers", pkg="sample", test="TestVerifSamplers",
              harness=["sample/c12_export.go", "sample/c12_samplers_test.go"], alternatives=_alts("c12"),
              budget={"quick": 60, "thorough": 360}, dump_workers=8),
+        # concurrent callers inside createSampler (the walks bind one Decide at a time): oracle = the model's
+        # WorkersShare / DestsIsolated / DefsIsolated at quiescence; race windows widened only through the
+        # injected metrics collaborator (parks in Register until all callers are there or a timeout RELEASES)
+        dict(kind="gotest", name="Samplers-concurrent", pkg="sample", test="TestVerifSamplersConcurrent",
+             harness=["sample/c12_export.go", "sample/c12_concurrent_test.go"], race=True,
+             budget={"quick": 40, "thorough": 200}),
         dict(kind="walk", name="Samplers-collect", module="Samplers", pkg="collect", test="TestVerifSamplersCollect",
              harness=["sample/c12_export.go", "collect/c12_collect_test.go"], alternatives=_alts("collect"),
              budget={"quick": 60, "thorough": 300}, dump_workers=8),
